@@ -140,7 +140,7 @@ end
 namespace World
 
 /-- `S_::wrapUtility` (structure/state_1.inl, structure/state_2.inl): a headless region's anonymous
-head answers `Utility{}`. -/
+head answers the default `Utility{1}`, like a named state that does not override `utility()`. -/
 def headUtility (w : World U) (sid inj : Nat) (headed : Bool) : World U × U :=
   let w := if headed || w.cfg.verbose then w.logRec (.method sid .utility) else w
   if headed then
@@ -148,7 +148,7 @@ def headUtility (w : World U) (sid inj : Nat) (headed : Bool) : World U × U :=
     match d.findSome? (fun | .retUtil u => some u | _ => none) with
     | some u => (w, u)
     | none => (w.fail' "utility() returned nothing", zero)
-  else (w, zero)
+  else (w, one)
 
 /-- `S_::wrapRank`. -/
 def headRank (w : World U) (sid inj : Nat) (headed : Bool) : World U × Int :=
@@ -160,7 +160,8 @@ def headRank (w : World U) (sid inj : Nat) (headed : Bool) : World U × Int :=
     | none => (w.fail' "rank() returned nothing", 0)
   else (w, 0)
 
-/-- `S_::wrapSelect`: a headless head answers `INVALID_PRONG`. -/
+/-- `S_::wrapSelect`: a headless head answers the default `0`, like a named head that does not
+override `select()`. -/
 def headSelect (w : World U) (sid inj : Nat) (headed : Bool) : World U × Option Nat :=
   let w := if headed || w.cfg.verbose then w.logRec (.method sid .select) else w
   if headed then
@@ -168,7 +169,7 @@ def headSelect (w : World U) (sid inj : Nat) (headed : Bool) : World U × Option
     match d.findSome? (fun | .retSelect i => some i | _ => none) with
     | some i => (w, some i)
     | none => (w.fail' "select() returned nothing", none)
-  else (w, none)
+  else (w, some 0)
 
 /-- `C_::resolveRandom` (structure/composite.inl): cumulative walk over the top-rank sub-states, falling
 back to the last one with positive utility. -/
@@ -367,7 +368,7 @@ def Node.request : Node → Req → World U → Node × World U
           let (s', w) := s.requestAt i rq w
           (.compo id rid inj h st a r (some i) m s', w)
         else (.compo id rid inj h st a r q m s, w.fail' "select() out of range")
-      | none => (.compo id rid inj h st a r q m s, w.fail' "select() on a headless region")
+      | none => (.compo id rid inj h st a r q m s, w.fail' "select() returned nothing")
     | .utilize =>
       let (s', w, us) := if rq.kind = .change then s.reportChangeAll w else s.reportUtilizeAll w
       match argMax us with
